@@ -146,10 +146,12 @@ KindOf(t, p, n) ==
 (* Positions, derived from the text alone *)
 NewlinesBefore(t, p) == Cardinality({q \in 1..(p - 1) : Ch(t, q) = NL})
 LineOf(t, p) == 1 + NewlinesBefore(t, p)
-\* the newline before p with no newline between it and p (0 if p is on the first line).  Written so that TLC
-\* needs time linear in p (taking the maximum of the set of newline positions is quadratic in the number of lines).
-LastNLBefore(t, p) == LET S == {q \in 1..(p - 1) : Ch(t, q) = NL} IN
-                      IF S = {} THEN 0 ELSE CHOOSE x \in S : \A y \in (x + 1)..(p - 1) : Ch(t, y) # NL
+\* the newline before p with no newline between it and p (0 if p is on the first line).  Searched backwards from p so
+\* that TLC needs time linear in p (the maximum of the set of newline positions costs it quadratic time in the number
+\* of lines, and a bounded quantifier costs it the size of its interval even when it stops early).
+LastNLBefore(t, p) ==
+    IF \A q \in 1..(p - 1) : Ch(t, q) # NL THEN 0
+    ELSE p - (CHOOSE d \in 1..(p - 1) : Ch(t, p - d) = NL /\ \A e \in 1..(d - 1) : Ch(t, p - e) # NL)
 ColOf(t, p) == p - LastNLBefore(t, p)
 
 (* The token record the specification associates with the slice (p, n) of kind k.
